@@ -59,3 +59,10 @@ Fixpoint heap_case (h : heap) (steps : list (hop * N * heap_view)) : bool :=
   | (HFree l, _, v) :: r =>
       match free h l with Some h' => heap_view_eqb (heap_view_of h') v && heap_case h' r | None => false end
   end.
+
+(** traversals: (topological order, levels, line order, reversed order, fan-in of the given origins) *)
+Definition trav_data := (list nat * list (nat * nat) * list nat * list nat * list nat)%type.
+Definition trav_case (c : netlist) (origins : list nat) (exp : trav_data) : bool :=
+  let '(t, lv, lo, rt, fi) := exp in
+  list_eqb Nat.eqb (topo_order c) t && list_eqb (pair_eqb Nat.eqb Nat.eqb) (topo_levels c) lv &&
+  list_eqb Nat.eqb (topo_line_order c) lo && list_eqb Nat.eqb (rtopo_order c) rt && list_eqb Nat.eqb (fanin c origins) fi.
